@@ -857,6 +857,22 @@ mod erased {
     }
 }
 
+/// Wait until sqlite side files (`-wal`, `-shm`, `-journal`) below `dir` are
+/// gone, i.e. the connections of a server that was shut down are closed
+/// (they are closed by a background thread). Gives up after 3 s.
+pub async fn wait_quiescent(dir: &Path) {
+    for _ in 0..300 {
+        let busy = walkdir::WalkDir::new(dir).into_iter().flatten().any(|e| {
+            let n = e.file_name().to_string_lossy().to_string();
+            n.ends_with("-wal") || n.ends_with("-shm") || n.ends_with("-journal")
+        });
+        if !busy {
+            return;
+        }
+        tokio::time::sleep(Duration::from_millis(10)).await;
+    }
+}
+
 /// Recursive copy of a (server data) directory.
 pub fn copy_dir_all(src: &Path, dst: &Path) -> EResult<()> {
     std::fs::create_dir_all(dst).map_err(es("mkdir"))?;
